@@ -351,7 +351,7 @@ def mac_one(lean, r, init_ops, ops, recursive, seed, cuts, *, res, label):
     if out == "bad-op":
         raise RuntimeError("driver refused " + line)
     mops, mtree, flags = parse_mac(out)
-    uni = fsops.Universe()
+    uni = fsops.Universe(pin_inodes=True)
     child = Child("mac_emitter_child.py")
     trace, ties = [], []
     try:
@@ -497,7 +497,7 @@ def mac_adversarial(res, lean, r, n):
     for k_case in range(len(fixed) + n):
         init = fixed[k_case][0] if k_case < len(fixed) else pipe.gen_history(r, r.randint(3, 9), no_replace=True)
         rec = r.random() < 0.7
-        uni = fsops.Universe()
+        uni = fsops.Universe(pin_inodes=True)
         child = Child("mac_emitter_child.py")
         try:
             for op in init:
